@@ -8,6 +8,9 @@ def run(ctx):
     # SeqFuns.tla (function, agreement of the families, laziness bound, sticky end)
     sessions(ctx, "faultfree", "faultfree", maxlen=ctx.pick(4, 6))
     sessions(ctx, "random", "random", n=ctx.pick(1500, 150000))
+    # the stream family's sequence must also come out right when per-call contexts have expired or expire during a call
+    # (a sample of the fault / context sessions that C08 judges in full)
+    sessions(ctx, "faults", "contexts", maxlen=2, keep=ctx.pick(0.08, 0.5))
     # Chan: several stream.Chan streams over one channel read concurrently (also with schedule perturbation)
     from bubblecommon import bubble_tv
     bubble_tv(ctx, "TestChanShare", "seq", "Trace_ChanShare", "tv_chan.cfg", "chan shared", {"n": ctx.pick(300, 3000)}, silent=False)
